@@ -415,6 +415,11 @@ def canon(t):
             # any([a, b]) has the truth value of (a or b)
             els_ = x[2][0][1]
             return els_[0] if len(els_) == 1 else ("boolop", "or" if x[1][1] == "any" else "and", tuple(els_))
+        if k == "unary" and x[1] == "not" and x[2][0] == "cmp" and len(x[2][1]) == 1 \
+                and x[2][1][0] in ("==", "!=", "in", "not in", "is", "is not"):
+            # not (a == b) is a != b: the negation goes into the operator
+            neg_ = {"==": "!=", "!=": "==", "in": "not in", "not in": "in", "is": "is not", "is not": "is"}[x[2][1][0]]
+            return fn(("cmp", (neg_,), x[2][2])) or ("cmp", (neg_,), x[2][2])
         if k == "unary" and x[1] == "not" and x[2][0] == "boolop":
             # not (a or b) is (not a) and (not b)
             return ("boolop", "and" if x[2][1] == "or" else "or", tuple(fn(("unary", "not", y)) or ("unary", "not", y) for y in x[2][2]))
